@@ -2,7 +2,7 @@
 import sys
 from core import rng_for, mk, bits_of, L, R, randbits, Buffer, REPO, impl_outcome
 from schc_run import Batch, obs_bits, with_timeout, parse_model_bits, parser_for
-from schc_util import n_rule, n_pdesc, rules_tokens, pdesc_tokens, tb, ref_compress, ref_rule_applies, DIRC, prefix_free_ids
+from schc_util import n_rule, n_pdesc, rules_tokens, pdesc_tokens, tb, ref_compress, ref_rule_applies, DIRC, prefix_free_ids, is_lossless_for, gen_rule
 from gens import gen_parsed, gen_ruleset, gen_packet, b2s, no_compression_rule
 import packets as P
 from microschc.rfc8724extras import Context
@@ -103,6 +103,13 @@ def run(rep, tier, seed):
             stack, pkt, st, pd = seeds[k]
             pd.direction = DI.UP
             rules = gen_ruleset(rnd, pd, n=nrules[k], with_default=False, match_prob=0.8, kinds=('ns', 'vs', 'vsv', 'lsb', 'lsbv', 'map'))
+            # "what it compresses it also decompresses back" is about rules that are lossless by construction: a near-miss mutant
+            # that still applies but is lossy (e.g. a value-sent descriptor whose declared length is not the field's) is replaced
+            npd_k = dict(n_pdesc(pd), dir='U')
+            for j, r in enumerate(rules):
+                nr_ = n_rule(r)
+                if not is_lossless_for(npd_k, nr_, 'U') and any(f['cda'] in 'vlm' for f in nr_['fds']):
+                    rules[j] = gen_rule(rnd, pd, nr_['id'], kinds=('ns', 'vs', 'vsv', 'lsb', 'lsbv', 'map'))
             rules = [RuleDescriptor(id=mk(ids[pos + j], rnd.choice([L, R])), field_descriptors=r.field_descriptors) for j, r in enumerate(rules)]
             pos += nrules[k]
             if withdef[k]:
